@@ -83,7 +83,15 @@ def scenario(draw):
             k = draw(st.sampled_from(["exc", "exc", "ret", "base"]))
             names = {"exc": [n for n in EXC_NAMES if n != "StopIteration"], "ret": RETURN_NAMES, "base": BASE_NAMES}[k]
             end = ["return" if k == "ret" else "raise", draw(st.sampled_from(names))]
-        payloads.append({"id": 1, "flavour": flv, "role": "trigger", "reg": {"how": "pre"}, "program": [["sleep", at + 1]], "end": end})
+        program = [["sleep", at + 1]]
+        for n in range(draw(st.sampled_from([0, 0, 1, 2]))):
+            # the failing payload adopts further payloads in the very step in which it fails
+            pid += 1
+            vflv = draw(st.sampled_from(COROUTINE))
+            payloads.append({"id": pid, "flavour": vflv, "role": "victim", "state": "adopted-by-trigger", "reg": {"how": "from", "parent": 1},
+                             "program": [["beat", 3, 1000000]], "end": ["forever"], "cleanup": draw(cleanup(vflv))})
+            program.append(["adopt", pid])
+        payloads.append({"id": 1, "flavour": flv, "role": "trigger", "reg": {"how": "pre"}, "program": program, "end": end})
         trigger["flavour"] = flv
         trigger["end"] = end
     else:
